@@ -27,7 +27,7 @@ def gen(seed, tier):
         pool = (1, 2, -3, 7, 0)
         a = H.gen_tree(rng, d + 1, n, pool, dflt)
         kind = "owned" if (d >= 1 and rng.random() < 0.5) else "free"
-        case = {"prop": PROP, "op": op, "d": d, "dflt": dflt, "kind": kind}
+        case = {"prop": PROP, "op": op, "d": d, "dflt": dflt, "kind": kind, "fdflt": rng.random() < 0.15}
         # the operands may have different defaults: the default delivered for an absent side is that side's
         if rng.random() < 0.3:
             case["dfltB"] = rng.choice([v for v in (0, 7, -1) if v != dflt])
@@ -247,6 +247,8 @@ def run(case):
         return _run_tuple(case)
     d, dflt, op = case["d"], case["dflt"], case["op"]
     dfltB = case.get("dfltB", dflt)
+    if case.get("fdflt"):
+        dflt, dfltB = float(dflt), float(dfltB)     # the defaults as floats: other boxing / copy paths
     # an unowned fiber of depth >= 2 that holds no element cannot know that its default is a fiber (it
     # guesses a boxed scalar): the kind of the fresh default is enforced for leaf ranks and tensor operands
     leaf = True if d == 0 else (False if case["kind"] == "owned" else None)
